@@ -1,0 +1,16 @@
+//go:build verif
+
+package fasthttp
+
+// VerifAgeIdleConns moves every non-zero idle marker in s.idleConns (the Unix time since which a connection counts as idle; a new
+// connection starts with connTime+5s) back by sec seconds, under idleConnsMu.  For closeIdleConns this is the same as sec seconds
+// passing, without the harness having to sleep.
+func VerifAgeIdleConns(s *Server, sec int64) {
+	s.idleConnsMu.Lock()
+	defer s.idleConnsMu.Unlock()
+	for _, t := range s.idleConns {
+		if v := t.Load(); v != 0 {
+			t.Store(v - sec)
+		}
+	}
+}
